@@ -323,4 +323,48 @@ def run(src, tier, seed):
     res.samples = [{'arm': a} for a in sorted(arms)][:30]
     if ctx.nreject < 40 or ctx.nmut < 10:
         raise AnalysisBroken('too few events seen (rejections %d, mutations %d): event matchers drifted' % (ctx.nreject, ctx.nmut))
+    # ---- names introduced inside a command are registered only after the command was accepted
+    r = res.rule('names-committed-after-acceptance', 'Interpret registers :named terms (MainSolver::tryAddTermNameFor) only in execute(), after interp() returned, under the test that no '
+                 'error response was issued by that command; the error counter is incremented by every error response; the pending list is emptied before each command', floor=4)
+    callers = sorted({f['name'] for f in fx.F.values() if f['name'].startswith(INTERP) for n in fwalk(f) if is_call(n, 'tryAddTermNameFor') and not n.get('as')})
+    if callers == ['opensmt::Interpret::execute']:
+        res.ok(r, 'tryAddTermNameFor is called from Interpret::execute only')
+    elif not callers:
+        raise AnalysisBroken('no Interpret method registers term names any more: the naming protocol changed')
+    else:
+        res.bad(r, 'name-registered-in-command:%s' % ','.join(c.split('::')[-1] for c in callers if not c.endswith('::execute')), fx.loc(fx.func(callers[0])),
+                'term names are registered from %s, i.e. while the command is still being interpreted: a command rejected afterwards leaves the name behind' % callers)
+    ex = fx.func('opensmt::Interpret::execute')
+    nodes = list(fwalk(ex))
+    i_interp = next((i for i, n in enumerate(nodes) if is_call(n, 'interp')), None)
+    i_commit = next((i for i, n in enumerate(nodes) if is_call(n, 'tryAddTermNameFor')), None)
+    snap = [n for n in nodes if n.get('k') == 'decl' and path_of(n.get('init')) == 'this.errorCount']
+    guarded = False
+    for n in walk(ex['body']):
+        if n.get('k') == 'if' and not n.get('as') and any(is_call(x, 'tryAddTermNameFor') for x in walk(n['then'])):
+            cs = [path_of(x) for x in walk(n['cond']) if x.get('k') in ('mem', 'ref')]
+            guarded = 'this.errorCount' in cs and snap and snap[0]['n'] in cs and any(x.get('op') == '==' for x in walk(n['cond']) if x.get('k') in ('bin', 'call'))
+    clears_before = any(is_call(n, 'clear', 'this.pendingTermNames') for n in nodes[:i_interp or 0])
+    if i_interp is not None and i_commit is not None and i_interp < i_commit and guarded and clears_before and \
+            snap and nodes.index(snap[0]) < i_interp:
+        res.ok(r, 'execute: pending names cleared, error count snapshot, interp(), commit under errorCount == snapshot')
+    elif i_commit is not None:
+        res.bad(r, 'names-committed-unconditionally', fx.loc(ex), 'Interpret::execute no longer commits the pending :named terms only when the command produced no error response')
+    nf = fx.func('opensmt::Interpret::notify_formatted')
+    inc = False
+    for n in walk(nf['body']):
+        if n.get('k') == 'if' and isinstance(n.get('cond'), dict) and n['cond'].get('n') == 'error':
+            inc = inc or any(x.get('k') == 'un' and x.get('op') == '++' and path_of(x['e']) == 'this.errorCount' for x in walk(n['then']))
+    if inc:
+        res.ok(r, 'notify_formatted(error=true, ...) increments errorCount')
+    else:
+        res.bad(r, 'error-not-counted', fx.loc(nf), 'notify_formatted no longer counts error responses: execute cannot tell an accepted command from a rejected one')
+    pt = fx.func('opensmt::Interpret::parseTerm')
+    dup = any(n.get('k') == 'if' and not n.get('as') and any(is_reject(x) for x in walk(n['then']) if x.get('k') == 'call') and
+              any(is_call(x, 'contains') for x in walk(pt['body']) if True) for n in walk(pt['body']))
+    pend = any(n.get('k') == 'call' and mname(n) in ('emplace_back', 'push_back') and recv_path(n) == 'this.pendingTermNames' for n in fwalk(pt))
+    if pend and dup:
+        res.ok(r, 'parseTerm: duplicate names rejected while parsing; accepted names go to the pending list')
+    elif i_commit is not None:
+        res.bad(r, 'pending-list-unused', fx.loc(pt), 'parseTerm no longer puts :named terms on the pending list')
     return res
